@@ -2,6 +2,7 @@ package eng
 
 import (
 	"fmt"
+	"go/constant"
 	"go/types"
 	"strings"
 
@@ -52,9 +53,71 @@ func lockKey(e *Engine, a *Val) (string, *Addr) {
 }
 
 func init() {
-	for _, k := range []string{"fmt.Sprintf", "fmt.Sprint", "fmt.Sprintln"} {
+	for _, k := range []string{"fmt.Sprint", "fmt.Sprintln"} {
 		reg(k, nil, "pure; result an unconstrained string", pureString)
 	}
+	reg("fmt.Sprintf", nil, "pure; for a constant format made only of literal text and %s verbs applied to strings the result is the exact concatenation, otherwise an unconstrained string", func(e *Engine, s *State, c *ssa.CallCommon, args []*Val, in ssa.Instruction) *Val {
+		fc, ok := c.Args[0].(*ssa.Const)
+		if !ok || fc.Value == nil || fc.Value.Kind() != constant.String || len(args) < 2 || len(args[1].L) != 4 {
+			return pureString(e, s, c, args, in)
+		}
+		format := constant.StringVal(fc.Value)
+		var segs []string // literal text or "" for a %s
+		cur := ""
+		nverbs := 0
+		for i := 0; i < len(format); i++ {
+			if format[i] != '%' {
+				cur += string(format[i])
+				continue
+			}
+			if i+1 < len(format) && format[i+1] == 's' {
+				segs = append(segs, cur, "")
+				cur = ""
+				nverbs++
+				i++
+				continue
+			}
+			return pureString(e, s, c, args, in) // other verbs: unconstrained
+		}
+		segs = append(segs, cur)
+		h := e.heapGet(s, "E!any", "(Array Int (Array Int Int))")
+		arr := app("select", h, args[1].L[0])
+		res := ""
+		k := 0
+		for idx, sg := range segs {
+			var piece string
+			if idx%2 == 0 {
+				if sg == "" {
+					continue
+				}
+				piece = e.strLit(sg)
+			} else {
+				// the k-th variadic argument must be a string boxed in an interface
+				iv := app("select", arr, app("+", args[1].L[1], num(int64(k))))
+				k++
+				s.assume(app(">=", app("slen", app("istr", iv)), "0"))
+				piece = app("istr", iv)
+			}
+			if res == "" {
+				res = piece
+			} else {
+				res = app("sconcat", res, piece)
+			}
+		}
+		if res == "" {
+			res = e.strLit("")
+		}
+		// exact only when every %s argument really is a string (dynamic type tag); otherwise unconstrained
+		var tags []string
+		for j := 0; j < nverbs; j++ {
+			iv := app("select", arr, app("+", args[1].L[1], num(int64(j))))
+			tags = append(tags, eq(app("ityp", iv), e.typeTag(types.Typ[types.String])))
+		}
+		r := e.declare(s, "fmtstr", "Str")
+		s.assume(app(">=", app("slen", r), "0"))
+		s.assume(implies(and(tags...), eq(r, res)))
+		return &Val{L: []string{r}}
+	})
 	reg("fmt.Errorf", nil, "pure; result a non-nil error", func(e *Engine, s *State, c *ssa.CallCommon, args []*Val, in ssa.Instruction) *Val {
 		return freshError(e, s)
 	})
